@@ -56,6 +56,7 @@ def profile(prop):
         p["kinds"] = list(gen.SEGMENTED)
         p["ops"].update(decode_twice=6, add=8, replace=6, set=4, remove=3, edit_restore=6)
         p["between"].update(truncated_decode=0.5)
+        p["huge"] = 0.008
         p["gap_heavy"] = True
         p["init"] = {"new": 6, "foreign": 3, "foreign_garbage": 1, "foreign_hole": 0.1, "foreign_noncompact": 0.2,
                      "capture": 0.03}
@@ -73,7 +74,8 @@ def profile(prop):
     elif prop == "C08":
         p["session"] = {"w": 5, "fresh": 1, "ro": 3, "out": 3, "armed_out": 3, "stale": 3}
         p["end"] = {"exit": 5, "exit_exc": 4, "kill": 0.5}
-        p["ops"].update(mode_matrix=6, read_w=3, read_obs=1, copy=1.5, enospc=1.0)
+        p["ops"].update(mode_matrix=6, read_w=3, read_obs=1, copy=1.5, enospc=1.0, read_twice=2)
+        p["huge"] = 0.012
         p["between"].update(copy=0.5)
         p["files"] = [1, 2, 2]
         p["len"] = (6, 20)
@@ -164,6 +166,14 @@ class Gen:
             pool = list(kinds or self.p["kinds"])
         kind = rng.choice(pool)
         masks = None
+        huge_p = self.p.get("huge", 0.004 if self.tier == "thorough" else 0.002)
+        if rng.random() < huge_p:
+            # a block of a few hundred KiB: size thresholds (buffer sizes, 64 KiB, chunked copies)
+            hk = rng.choice([k for k in ("emg", "emg", "data3d") if k in pool] or [None])
+            if hk:
+                n = rng.choice((rng.randint(16384, 70000), rng.randint(65537, 140000)))
+                m = "1" * n if rng.random() < 0.5 else "1" * (n // 3) + "0" * 7 + "1" * (n - n // 3 - 7)
+                return gen.block(rng, hk, masks=[m], fmix="ordinary")
         if self.p["gap_heavy"] and kind in gen.SEGMENTED and rng.random() < 0.8:
             # stratified presence masks: run i enumerates masks 3*(i//4), 3*(i//4)+1, ... of track
             # kind i%4, so 4 * ceil(sum(2^n) / 3) runs store every mask over 1..nmax frames
@@ -181,11 +191,6 @@ class Gen:
                     break
                 masks.append(m)
             self.mask_cursor += len(masks)
-        if masks is None and rng.random() < (0.004 if self.tier == "thorough" else 0.002) and kind in ("emg", "data3d"):
-            # a block of a few hundred KiB: size thresholds (buffer sizes, 64 KiB, chunked copies)
-            n = rng.choice((rng.randint(16384, 70000), rng.randint(65537, 140000)))
-            m = "1" * n if rng.random() < 0.5 else "1" * (n // 3) + "0" * 7 + "1" * (n - n // 3 - 7)
-            return gen.block(rng, kind, masks=[m], fmix="ordinary")
         return gen.block(rng, kind, big=rng.random() < self.p["big"], min_items=min_items, masks=masks,
                          huge_cell=(kind == "data2d" and rng.random() < self.p.get("huge_cell", 0.02)))
 
